@@ -7,6 +7,7 @@ From EP Require Import Base.Bytes Checksum.Spec Checksum.Model Checksum.Proofs.
 From EP Require Import Checksum.ProtoTypes Checksum.ProtoSpec.
 From EP Require Import Roundtrip.Common Roundtrip.CommonProofs.
 From EP Require Roundtrip.Spec Roundtrip.Tcp Roundtrip.TcpProofs Roundtrip.Ipv4 Roundtrip.Ipv4Proofs.
+From EP Require CtlMsg.Spec Roundtrip.Icmp4 Roundtrip.Icmp6.
 From EP Require ExtChain.Spec ExtChain.Model ExtChain.View ExtChain.Proofs BitFields.Model.
 From EP Require Import Parse.Types Parse.View Parse.WireSpec.
 From EP Require Import Builder.Model Builder.Spec Builder.Proofs Builder.ProofsCk Builder.SpecX Builder.ProofsTr
@@ -34,7 +35,7 @@ Proof.
     destruct SH as (front & tb & EB & LF & LT & BND & ETR).
     exists front, tb. split; [exact EB|]. split; [exact LF|]. split; [exact LT|]. split; [clear - BND; lia|].
     assert (UL : 8 + len p < 65536).
-    { clear - BND. destruct (c_transport c) as [n|sp dp|t|k|k]; cbn [tr_header_len] in *; try lia;
+    { clear - BND. destruct (c_transport c) as [n|sp dp|t|k|k]; cbn [tr_header_len] in *; try lia; try (icmp_hl; lia);
       unfold Tcp.header_len in BND; lia. }
     rewrite (as_u16_small _ UL) in ETR.
     destruct (Ipv4Proofs.wf_ip4_facts h WH) as (_ & _ & (LS & OS & LD & OD) & _).
@@ -59,7 +60,7 @@ Proof.
       * destruct U as (_ & ck & _ & _ & ->). exists ck. reflexivity.
       * destruct U as (-> & _). reflexivity.
     + destruct (c_transport c) as [n|sp dp|t|k|k]; cbn [tr_header_len th_of] in *;
-        try (exfalso; clear - UL BND; lia).
+        try (exfalso; clear - UL BND; icmp_hl; lia).
       * cbn [tr_ipv6] in ETR. injection ETR as <-. reflexivity.
       * exfalso. clear - UL BND. unfold Tcp.header_len in BND. lia.
 Qed.
@@ -85,10 +86,14 @@ Proof.
   unfold tcp_data_offset, tcp_hdr_of. cbn [t_options t_ns]. rewrite (TcpProofs.len_take_opts t WT).
   unfold Tcp.header_len. apply tcp_doff_byte; [exact OL|exact OM|destruct (Tcp.ns t); cbn [bit]; lia].
 Qed.
-Lemma icmp4_fields k ck p : icmp_wf k = true ->
-  B (icmp4_to_bytes k ck ++ p) 0 = fst (icmp_type_code 8 0 k) /\
-  B (icmp4_to_bytes k ck ++ p) 1 = snd (icmp_type_code 8 0 k).
-Proof. intros _. destruct k; split; reflexivity. Qed.
+(* type and code octets of every configured ICMPv4 message, as the decoder reads them *)
+Lemma icmp4_fields k ck p :
+  B (icmp4_wire (c09_icmp4 k) ck ++ p) 0 = fst (icmp4_tc k) /\
+  B (icmp4_wire (c09_icmp4 k) ck ++ p) 1 = snd (icmp4_tc k).
+Proof.
+  destruct k as [ty c b4 b5 b6 b7|id sq|d|rc g0 g1 g2 g3|id sq|tc|pp|m|m];
+    try destruct d; try destruct pp; split; reflexivity.
+Qed.
 
 (* what wire_transport returns for a configuration *)
 Definition tr_done (c : cfg) (total : N) (pk : vpacket) : vpacket :=
@@ -133,13 +138,14 @@ Proof.
         change (6 =? 6) with true; cbv iota;
         apply wire_tcp_ok; [unfold Tcp.header_len; clear; lia|clear - LB; lia|]; rewrite DR; apply tcp_field; exact WT.
   (* ICMPv4 *)
-  1, 3: destruct (icmp4_of_wf k WT) as (ty & ETY & _ & _ & EW); rewrite ETY in TH; cbn [option_map] in TH;
+  1, 3: destruct (icmp4_of_wf k WT) as (ty & ETY & _ & -> & EW); rewrite ETY in TH; cbn [option_map] in TH;
         destruct TH as (ck & ->); unfold wire_transport; change (1 =? 1) with true; cbv iota;
-        destruct (icmp4_fields k ck p WT) as [T0 T1]; rewrite (EW ck) in T0, T1;
-        assert (T0' : B bs pos = fst (icmp_type_code 8 0 k))
+        destruct (icmp4_fields k ck p) as [T0 T1]; cbn [th_wire] in DR;
+        assert (T0' : B bs pos = fst (icmp4_tc k))
           by (replace (B bs pos) with (B bs (pos + 0)) by (f_equal; lia); rewrite DR; exact T0);
-        assert (T1' : B bs (pos + 1) = snd (icmp_type_code 8 0 k)) by (rewrite DR; exact T1);
-        apply wire_icmp4_ok; [clear - LB; lia|]; rewrite T0', T1';
+        assert (T1' : B bs (pos + 1) = snd (icmp4_tc k)) by (rewrite DR; exact T1);
+        pose proof (icmp4_hl_bounds k) as HLB;
+        apply wire_icmp4_ok; [clear - LB HLB; lia|]; rewrite T0', T1';
         rewrite FR in PA; cbn [orb] in PA; unfold icmp4_admits in PA; intros ADM;
         rewrite ADM in PA; apply N.eqb_eq in PA; clear - PA LB; lia.
   (* ICMPv6 *)
@@ -152,7 +158,7 @@ Proof.
     + apply (build_error_iff e c p er WF) in SO. rewrite E in SO. discriminate.
   - destruct (icmp6_of_wf k WT) as (ty & ETY & _ & _ & EW). rewrite ETY in TH. cbn [option_map] in TH.
     destruct TH as (ck & ->). unfold wire_transport. change (58 =? 1) with false. change (58 =? 17) with false.
-    change (58 =? 6) with false. change (58 =? 58) with true. cbv iota.
+    change (58 =? 6) with false. change (58 =? 58) with true. cbv iota. rewrite (icmp6_hl k) in *.
     apply wire_icmp6_ok; [clear - LB; lia|]. clear - LB BND. lia.
 Qed.
 
